@@ -71,6 +71,9 @@ class Mismatch(Exception):
         self.key, self.what = key, what
 
 
+SCALE = 1      # model ticks -> time quanta (exhaustive configurations count in abstract ticks: LDT0 = 1 <-> 640)
+
+
 def exec_action(w: World, a: dict):
     """perform the API call of one top-level model action"""
     k = a["a"]
@@ -85,7 +88,7 @@ def exec_action(w: World, a: dict):
     elif k == "InitParams":
         w.init_params()
     elif k == "SetParam":
-        w.set_param(a["p"], a["v"])
+        w.set_param(a["p"], a["v"] * (SCALE if a["p"] == "ldt" else 1))
     elif k == "Run":
         w.run()
     elif k == "PublishBegin":
@@ -116,26 +119,29 @@ def compare_idle(w: World, st: dict):
     if st["locked"] != bool(w.core.pub_sub_locked):
         raise Mismatch("bus/locked", f"model locked={st['locked']}, real {w.core.pub_sub_locked}")
     caches = w.caches()
+    sc = lambda p, v: v * SCALE if (p == "ldt" and v >= 0) else v
     for p, v in st["cache"].items():
+        v = sc(p, v)
         if v != caches.get(p, -1):
             raise Mismatch("params/cache", f"Param {p}: model {v}, real {caches.get(p, -1)}")
     if st["inited"]:
         core = w.core_params()
         for p, v in st["params"].items():
+            v = sc(p, v)
             if v != core.get(p, -1):
                 raise Mismatch("params/core", f"core value of {p}: model {v}, real {core.get(p, -1)}")
     if len(st["rows"]) != len(w.rows):
         raise Mismatch("logger/row/count", f"model has {len(st['rows'])} rows, real {len(w.rows)}")
     for k, (mr, rr) in enumerate(zip(st["rows"], w.rows)):
-        if mr["t"] != rr["t"] or mr["dt"] != rr["dt"]:
+        if mr["t"] * SCALE != rr["t"] or mr["dt"] * SCALE != rr["dt"]:
             raise Mismatch("logger/row/period", f"row {k}: model (t={mr['t']}, dt={mr['dt']}), real (t={rr['t']}, dt={rr['dt']})")
         for t, mid in rr["latest"].items():
             if mr["latest"][t] != mid:
                 raise Mismatch("logger/row/latest", f"row {k} topic {t}: model {mr['latest'][t]}, real {mid}")
         for p, v in rr["lpar"].items():
-            if mr["lpar"].get(p, -1) != v and rr["hl"].get("params", -1) != -1:
+            if sc(p, mr["lpar"].get(p, -1)) != v and rr["hl"].get("params", -1) != -1:
                 raise Mismatch("logger/row/params", f"row {k} param {p}: model {mr['lpar'].get(p)}, real {v}")
-    if st["now"] != w.now() and st["rows"]:
+    if st["now"] * SCALE != w.now() and st["rows"]:
         raise Mismatch("time/now", f"model now={st['now']}, real {w.now()}")
 
 
@@ -164,7 +170,7 @@ def replay_behaviour(steps, stats=None):
             if e["a"] != k:
                 raise Mismatch(f"bus/{k}/event", f"model step {a}, real event {e}")
             for f in FIELDS[k]:
-                if e.get(f) != a.get(f):
+                if e.get(f) != (a.get(f) * SCALE if f in ("t_now", "dt") else a.get(f)):
                     key = "publish/wrong-type/accepted" if (k == "PublishBegin" and a["err"] == "type") else f"bus/{k}/{f}"
                     raise Mismatch(key, f"model {a}, real {e}")
             if stats is not None:
@@ -683,7 +689,12 @@ def reentrancy_finding(run, res):
     if len(steps) < 3:
         raise MachineryError("could not parse TLC's counterexample")
     cls = classify_history(steps)
-    probs, info = replay_behaviour(steps)
+    global SCALE
+    SCALE = 640
+    try:
+        probs, info = replay_behaviour(steps)
+    finally:
+        SCALE = 1
     keys = {k for k, _ in probs}
     data = {"engine": "B", "steps": norm(steps), "classification": cls, "script": uros_rec.REENTRANT_SCRIPT}
     run.sample({"counterexample_actions": acts_of(steps), "classification": cls, "real_uros": probs[:2]})
@@ -1188,6 +1199,15 @@ def main():
     if tier not in TIERS:
         raise MachineryError(f"unknown tier {tier}")
     run = Run(PID, tier)
+    try:
+        return _main(run, tier)
+    except BaseException:
+        import shutil
+        shutil.rmtree(run.workdir, ignore_errors=True)      # scratch never survives a failed run
+        raise
+
+
+def _main(run, tier):
     seed = run.seed
     if "--replay" in sys.argv:
         return replay_file(run, sys.argv[sys.argv.index("--replay") + 1])
